@@ -108,6 +108,7 @@ structure Params where
   gate : Bool := false
   expiry : Bool := false
   errs : Bool := false            -- a goroutine of the harness keeps reading Errs()
+  noIdBatch : Bool := false       -- batch items k with k % 3 = 1 were submitted without an ID (named by the generator)
   ctx : Bool := false
   nqueues : Nat := 1
   outcomes : List Nat := []
